@@ -187,7 +187,20 @@ def run_all(ctx, edges, workers=48):
     work = os.path.join(ctx.scratch, "pam")
     os.makedirs(work, exist_ok=True)
     with concurrent.futures.ThreadPoolExecutor(max_workers=workers) as ex:
-        return list(ex.map(lambda ie: run_script(exe, work, ie[0], ie[1]), enumerate(edges)))
+        results = list(ex.map(lambda ie: run_script(exe, work, ie[0], ie[1]), enumerate(edges)))
+    # the module waits at most TIMEOUT_S for the scripted server; on a loaded machine the server thread itself can be late.
+    # A result that could be explained by that (an expected success that came out as "unavailable", or a slow return) is
+    # re-run alone; a defect of the module shows again, a scheduling hiccup does not.
+    for k, r in enumerate(results):
+        late = (r["edge"]["success"] and r["rc"] not in (0, None) and not r["hung"]) or (r["ms"] is not None and r["ms"] > 4500)
+        for _ in range(2):
+            if not late:
+                break
+            r2 = run_script(exe, work, r["idx"], r["edge"])
+            late = (r2["edge"]["success"] and r2["rc"] not in (0, None) and not r2["hung"]) or (r2["ms"] is not None and r2["ms"] > 4500)
+            if not late:
+                results[k] = r2
+    return results
 
 
 def run_sequence(exe, work, idx, edges):
